@@ -473,7 +473,7 @@ func checkGitlabAPIErrors(c *Ctx) {
 	ia := w.Method("bridge/gitlab", "gitlabImporter", "ImportAll")
 	if ia != nil {
 		okErrChan, okErrEvent := false, false
-		for _, body := range ia.AnonFuncs {
+		for _, body := range importerBodies(ia)[1:] {
 			for _, b := range body.Blocks {
 				for _, ins := range b.Instrs {
 					if u, isU := ins.(*ssa.UnOp); isU && u.Op == token.ARROW {
@@ -753,7 +753,7 @@ func checkCursorFieldAndFailureSeverity(c *Ctx) {
 		return
 	}
 	n := 0
-	for _, body := range append([]*ssa.Function{ia}, ia.AnonFuncs...) {
+	for _, body := range importerBodies(ia) {
 		for _, cl := range Calls(body) {
 			isEnsure := strings.HasPrefix(cl.Name, "bridge/gitlab.gitlabImporter.ensure") || strings.HasSuffix(cl.Name, ".Commit")
 			if !isEnsure || cl.Value() == nil || len(errValues(cl.Value())) == 0 {
@@ -939,7 +939,7 @@ func checkEarlyStopIsError(c *Ctx) {
 		return false
 	}
 	loops, exits := 0, 0
-	for _, an := range fn.AnonFuncs {
+	for _, an := range importerBodies(fn)[1:] {
 		c.seeFn(funcName(an))
 		for _, h := range an.Blocks {
 			if !isLoopHeader(h) {
@@ -1093,69 +1093,74 @@ func checkListingStableAndEventIds(c *Ctx) {
 	c.Check(nID >= 3, "R16.11", "expected:event-id-methods", "bridge/gitlab", fmt.Sprintf("%d event ID methods", nID), fmt.Sprintf("only %d event ID methods found (reference 3)", nID))
 	// R16.12
 	if fn := w.Method("bridge/gitlab", "gitlabImporter", "ImportAll"); fn != nil {
+		bodies := importerBodies(fn)[1:]
+		// why the call instruction at (in body) is not executed once per iteration of the channel loop around it ("" = it is)
+		var oncePerIssue func(at ssa.Instruction, body *ssa.Function, depth int) string
+		oncePerIssue = func(at ssa.Instruction, body *ssa.Function, depth int) string {
+			hdr := enclosingLoopHeader(at.Block())
+			if hdr == nil {
+				// in a helper without loop: unconditional there, and the helper is called once per issue
+				if depth > 1 {
+					return "not inside the loop over the listed issues"
+				}
+				for _, cc := range controlConds(at.Block(), nil) {
+					if !errNilEdge(cc) {
+						return w.InstrPos(cc.If)
+					}
+				}
+				res := "not inside the loop over the listed issues"
+				for _, ob := range bodies {
+					for _, cl := range Calls(ob) {
+						if cl.Fn != nil && bodyOf(cl.Fn) == body {
+							res = oncePerIssue(cl.Instr, ob, depth+1)
+						}
+					}
+				}
+				return res
+			}
+			for _, cc := range controlConds(at.Block(), hdr.Idom()) {
+				if isLoopHeader(cc.If.Block()) {
+					continue
+				}
+				if !errNilEdge(cc) {
+					return w.InstrPos(cc.If)
+				}
+			}
+			// no way round the call back to the loop header (a 'continue' that skips the listing)
+			seen := map[*ssa.BasicBlock]bool{}
+			var q []*ssa.BasicBlock
+			for _, sb := range hdr.Succs {
+				if inLoop(sb, hdr) && sb != at.Block() {
+					seen[sb] = true
+					q = append(q, sb)
+				}
+			}
+			for len(q) > 0 {
+				x := q[0]
+				q = q[1:]
+				for _, sb := range x.Succs {
+					if sb == hdr {
+						return "the next issue is started from " + w.InstrPos(firstPosInstr(x)) + " without the listing"
+					}
+					if sb == at.Block() || seen[sb] || !inLoop(sb, hdr) {
+						continue
+					}
+					seen[sb] = true
+					q = append(q, sb)
+				}
+			}
+			return ""
+		}
 		found := false
-		for _, an := range fn.AnonFuncs {
+		for _, an := range bodies {
 			for _, cl := range Calls(an) {
 				if cl.Name != "bridge/gitlab.SortedEvents" {
 					continue
 				}
 				found = true
 				c.Sites++
-				why := ""
-				hdr := enclosingLoopHeader(cl.Block())
-				if hdr != nil {
-					for _, cc := range controlConds(cl.Block(), hdr.Idom()) {
-						if isLoopHeader(cc.If.Block()) {
-							continue
-						}
-						// the success edge of an error test
-						if bo, isBo := cc.If.Cond.(*ssa.BinOp); isBo && (bo.Op == token.NEQ || bo.Op == token.EQL) {
-							var ev ssa.Value
-							if isNilConst(bo.Y) {
-								ev = bo.X
-							} else if isNilConst(bo.X) {
-								ev = bo.Y
-							}
-							if ev != nil && isErrorType(ev.Type()) {
-								nilEdge := 1
-								if bo.Op == token.EQL {
-									nilEdge = 0
-								}
-								if cc.Edge == nilEdge {
-									continue
-								}
-							}
-						}
-						why = w.InstrPos(cc.If)
-					}
-				}
-				if why == "" && hdr != nil {
-					// no way round the call back to the loop header (a 'continue' that skips the listing)
-					seen := map[*ssa.BasicBlock]bool{}
-					var q []*ssa.BasicBlock
-					for _, sb := range hdr.Succs {
-						if inLoop(sb, hdr) && sb != cl.Block() {
-							seen[sb] = true
-							q = append(q, sb)
-						}
-					}
-					for len(q) > 0 && why == "" {
-						x := q[0]
-						q = q[1:]
-						for _, sb := range x.Succs {
-							if sb == hdr {
-								why = "the next issue is started from " + w.InstrPos(firstPosInstr(x)) + " without the listing"
-								break
-							}
-							if sb == cl.Block() || seen[sb] || !inLoop(sb, hdr) {
-								continue
-							}
-							seen[sb] = true
-							q = append(q, sb)
-						}
-					}
-				}
-				c.Check(why == "" && hdr != nil, "R16.12", "gitlabImporter.ImportAll:events-listed-for-every-issue", w.InstrPos(cl.Instr), "the events of every listed issue are listed",
+				why := oncePerIssue(cl.Instr, an, 0)
+				c.Check(why == "", "R16.12", "gitlabImporter.ImportAll:events-listed-for-every-issue", w.InstrPos(cl.Instr), "the events of every listed issue are listed",
 					"the events of a listed issue are fetched only under a condition ("+why+"): an issue judged 'unchanged' is skipped without error, although an earlier round may have failed before importing all of its events — the clean round stores the cursor and those events are never imported")
 			}
 		}
@@ -1163,4 +1168,58 @@ func checkListingStableAndEventIds(c *Ctx) {
 			c.Info("R16.12", "gitlabImporter.ImportAll:events-listed-for-every-issue", w.FnPos(fn), "no SortedEvents call: not interpreted")
 		}
 	}
+}
+
+// importerBodies: ImportAll, its goroutine bodies, and the same-package functions those call that send on a
+// channel themselves (a part of the relaying loop extracted into a helper).
+func importerBodies(ia *ssa.Function) []*ssa.Function {
+	out := []*ssa.Function{ia}
+	seen := map[*ssa.Function]bool{ia: true}
+	for _, an := range ia.AnonFuncs {
+		out = append(out, an)
+		seen[an] = true
+	}
+	for _, body := range append([]*ssa.Function{}, out...) {
+		for _, h := range fnAndHelpers(body, 1) {
+			if seen[h] || errResultIndex(h) >= 0 {
+				// a function that reports through its error result is a step, not a part of the relaying loop
+				continue
+			}
+			sends := false
+			for _, b := range h.Blocks {
+				for _, ins := range b.Instrs {
+					if _, ok := ins.(*ssa.Send); ok {
+						sends = true
+					}
+				}
+			}
+			if sends {
+				seen[h] = true
+				out = append(out, h)
+			}
+		}
+	}
+	return out
+}
+
+// errNilEdge: the control condition is the success edge of an error test (err != nil false / err == nil true).
+func errNilEdge(cc controlCond) bool {
+	bo, isBo := cc.If.Cond.(*ssa.BinOp)
+	if !isBo || (bo.Op != token.NEQ && bo.Op != token.EQL) {
+		return false
+	}
+	var ev ssa.Value
+	if isNilConst(bo.Y) {
+		ev = bo.X
+	} else if isNilConst(bo.X) {
+		ev = bo.Y
+	}
+	if ev == nil || !isErrorType(ev.Type()) {
+		return false
+	}
+	nilEdge := 1
+	if bo.Op == token.EQL {
+		nilEdge = 0
+	}
+	return cc.Edge == nilEdge
 }
